@@ -241,6 +241,40 @@ def agg_oracle(case):
                 raise Violation(f"{fn.__name__} accepted a decreasing index "
                                 f"{bad.tolist()[:20]} -> {r.tolist()[:10]}")
             labels.append("decreasing-rejected")
+    # ---- a single stray entry inside a run of equal index values (a dip, or
+    # a spike followed by the return to the run's value) is a decrease too
+    idx = build(case)[0]        # (the array above was edited in place)
+    if not case.get("spread") and I32MIN + 2 < idx.min() and \
+            idx.max() < 2**31 - 3:
+        start = 0
+        strays = []
+        for r in case["runs"]:
+            if r >= 3:
+                for pos in sorted({start + 1, start + r // 2, start + r - 2}):
+                    strays.append(pos)
+            start += r
+        sel = [strays[(case["drop_at"] + 7 * k) % len(strays)]
+               for k in range(min(4, len(strays)))] if strays else []
+        for pos in sel:
+            for delta in (-1, 1):
+                bad = idx.copy()
+                bad[pos] += delta
+                for fn, args in ((dutils.aggregate,
+                                  (bad, x.copy(), op, maxnan)),
+                                 (dutils.flathomogen,
+                                  (bad, x.copy(), maxnan))):
+                    try:
+                        r_ = fn(*args)
+                    except ValueError:
+                        continue
+                    raise Violation(
+                        f"{fn.__name__} accepted an index that decreases "
+                        f"at position {pos + (1 if delta > 0 else 0)}: a run "
+                        f"of {int(idx[pos])} with the value "
+                        f"{int(bad[pos])} at position {pos} "
+                        f"(length {len(idx)})")
+        if sel:
+            labels.append("stray-inside-run-rejected")
     if case["offset"] not in (0, 199501, -7) or case.get("spread"):
         labels.append("index:int32-extreme")
     if case.get("spread"):
